@@ -51,6 +51,14 @@ static bxdecay0::event random_event(Rng & r, int maxpart, bool hostile)
 {
   bxdecay0::event e;
   e.set_generator(LABELS[r.below(8)]);
+  if (r.below(8) == 0) {
+    // the label is a free whitespace-free token: applications tag productions with it (any length, punctuation)
+    std::string lab = LABELS[r.below(8)];
+    static const char * parts[] = {"/background", "/production-2026-09", "/run-000123", "_v1.2.3", ":calib", ";x=1", "#7", "@site", "%20"};
+    int n = 1 + (int)r.below(12);
+    for (int i = 0; i < n; i++) lab += parts[r.below(9)];
+    e.set_generator(lab);
+  }
   e.set_time(hostile ? hostile_double(r, true) : r.uniform() * 1e4);
   static const bxdecay0::particle_code codes[] = {bxdecay0::GAMMA, bxdecay0::POSITRON, bxdecay0::ELECTRON, bxdecay0::ALPHA};
   int n = (int)r.below(maxpart + 1);
@@ -188,10 +196,19 @@ int main(int argc, char ** argv)
           int id = 0;
           for (int f = 0; f < F; f++) {
             std::string p = dir + fmt("/w%d.d0t", f);
-            std::ofstream out(p);
+            std::ostringstream out;
             if ((partitions + f) % 3 != 1) out.precision(15); // (see the round-trip section: the library sets what it needs)
             if (part[f] == 0 && ((partitions + f) % 2)) out << "\n  \n\t\n";
             for (int j = 0; j < part[f]; j++, id++) write_record(out, id, stream[id]);
+            std::string text = out.str();
+            // every fifth file ends right after its last number: no blank separator, no final newline (what is left when a tool or an
+            // editor strips trailing white space) - the records themselves are complete
+            if ((partitions + f) % 5 == 2)
+              while (!text.empty() && std::isspace((unsigned char)text.back())) text.pop_back();
+            {
+              std::ofstream fo(p);
+              fo << text;
+            }
             files.push_back(p);
           }
           std::string pstr;
